@@ -55,6 +55,43 @@ def one_case(ctx, res, stream, files, verbose):
                         {"decoded": [(a, b, k, m, len(c)) for a, b, k, m, c in dec][:4], "want": [(a, b, k, m, len(c)) for a, b, k, m, c in want][:4]}, {"clause": "decoder_files"})
 
 
+def frontier_case(ctx, res, files):
+    """around the capacity: whether create accepts is C09's question; whatever archive it writes must be a .k7"""
+    stream = "capacity_frontier"
+    st = res.stream(stream)
+    d = ctx.fresh_dir()
+    srcs, world = [], []
+    for name, content in files:
+        with open(os.path.join(d, name), "wb") as f:
+            f.write(content)
+        srcs.append(name)
+        world.append((name, content))
+    status, out = T.tar(["-c", "t.k7"] + srcs, cwd=d)
+    ap = os.path.join(d, "t.k7")
+    tape = open(ap, "rb").read() if os.path.exists(ap) else None
+    ans = drv([f"tape.inject q {cps('t.k7')} {len(srcs)} " + " ".join(cps(s) for s in srcs) + "".join(f" {cps(p)} {hx(c)}" for p, c in world)])
+    mo = T.parse_outcome(ans[0])
+    case = {"files": [(n, len(c)) for n, c in files], "enc_size": T.enc_size([c for _, c in files])}
+    st.see(case)
+    st.compared += 1
+    impl_writes = [("t.k7", tape)] if tape is not None else []
+    if (status, out, impl_writes) != (mo["status"], mo["out"], mo["writes"]):
+        res.disagree(stream, case, {"status": mo["status"], "out": mo["out"]}, {"status": status, "out": out})
+    if tape is None:
+        return
+    if len(tape) != 21504:
+        res.violate(stream, "archive is not 21504 bytes", case, len(tape), {"clause": "length"})
+        return
+    dec, err = T.strict_decode(tape)
+    if dec is None:
+        res.violate(stream, "independent decoder rejects the archive: " + err, case, err, {"clause": "decoder"})
+    else:
+        spec = [T.split_source(n)[:4] + (c,) for n, c in files]
+        want = [((n + " " * 8)[:8].encode(), (e + " " * 3)[:3].encode(), k, m, c) for n, e, k, m, c in spec]
+        if dec != want:
+            res.violate(stream, "decoded files differ from the sources", case, {"decoded": len(dec), "want": len(want)}, {"clause": "decoder_files"})
+
+
 def run(ctx, res):
     res.rule = ("source lists accepted by create, including names longer than 8.3, every kind (BAS, BAS,a, CSV, other), contents of "
                 "all size classes and checksum-wrap payloads; non-trivial = at least one file; distinct by names, sizes, contents")
@@ -88,6 +125,13 @@ def run(ctx, res):
         one_case(ctx, res, "random", files, rng.random() < 0.3)
         if i == 4:
             res.sample({"files": [(n, len(c)) for n, c in files]})
+    import props.c09 as C09
+    for target in (range(21480, 21520) if ctx.thorough else range(21498, 21510)):
+        for _ in range(3 if ctx.thorough else 1):
+            nfiles = rng.choice([1, 2, 3])
+            contents = C09.tuned(rng, target, nfiles, rng.choice([0, nfiles - 1]))
+            if contents is not None:
+                frontier_case(ctx, res, [(f"f{i}.bin", c) for i, c in enumerate(contents)])
     st = res.stream("checksum_wrap_0..255", exhaustive=True)
     for k in range(256):
         one_case(ctx, res, st.name, [("s%d.bin" % k, bytes([k])), ("t.bin", bytes([k, 255, 1]))], False)
